@@ -7,13 +7,14 @@ input buffers and however small the output buffers are, provided the caller
 follows the more-input/more-output protocol. Serialising the state to its
 fixed-size buffer and restoring it between any two calls changes nothing."
 
-Property theorems ONLY (helper lemmas: BV/Lemmas/Concat{Serial,Stall,Slice}.lean).
+Property theorems ONLY (helper lemmas: BV/Lemmas/Concat{Serial,Stall,Slice,Split,Member,MemberRun}.lean).
 Model: BV/Model/Concat.lean.
 -/
 import BV.Lemmas.ConcatSerial
 import BV.Lemmas.ConcatStall
 import BV.Lemmas.ConcatSlice
 import BV.Lemmas.ConcatSplit
+import BV.Lemmas.ConcatMemberRun
 
 namespace BV.Props.C12
 open BV.Concat BV.Concat.Outcome
@@ -153,29 +154,53 @@ theorem stream_conservation (s : State) (inp : List Nat) (cap : Nat) (r : Ret) (
   have := stream_cons s inp cap r hI hset h
   exact ⟨this.cons, this.settled, this.code⟩
 
-/-- FULL STATEMENT (not proved in this generality): for every state reachable after
-`new_brotli_file`, any two slicings of the same member bytes and any two capacity
-schedules give the same emitted bytes, final result and final state.
-
-PROVED: exactly that, for every state in which the member's header has been accepted
-(`Settled`) — i.e. for the whole body of every member, and for the copy-out of a
-realigned header that did not fit the output buffer.  `_partial` because the three
-header steps (strip of the previous end marker, 4/5-byte look-ahead, realignment) are
-covered by separate theorems instead of one induction: `lookahead_slicing` /
-`lookahead_is_exact` (the look-ahead is slicing independent), `no_progress_no_observable_change`
-and `flush_room_irrelevant` (the strip does not depend on the capacity offered, once there is
-any), `header_phase_split` (a member whose header arrives in two pieces behaves like the
-unsplit call, when the strip emits no byte).  What remains is the case where the strip
-emits its completed byte in the same call that also realigns the header, and the
-assembly into a single induction. -/
-theorem slicing_irrelevant_partial (f1 f2 : Nat) (s : State) (bufs1 bufs2 : List (List Nat))
-    (caps1 caps2 acc : List Nat) (R1 R2 : Run) (hI : Inv s) (hS : Started s) (hset : Settled s)
+/-- `slicing_irrelevant`, full strength.  From ANY protocol state — a member in its header
+phase (right after `new_brotli_file`, or with part of the look-ahead read, or waiting for
+room for the header) or a member whose header has been accepted (`Settled`) — any two ways of
+slicing the same remaining bytes into input buffers and any two schedules of output
+capacities (including calls with no room at all) give runs that agree on: every emitted
+byte, the final result code (`NeedsMoreInput`, or the same terminal error), the bytes still
+owed, the tail length, the pending look-ahead and the window.  This covers the strip of the
+previous end marker emitting its completed byte in the same call that realigns the header,
+headers split over any number of buffers, header copy-out into tiny buffers, and the
+pass-through; `ObsEq` is `BV.Concat.ObsEq`. -/
+theorem slicing_irrelevant (f1 f2 : Nat) (s : State) (bufs1 bufs2 : List (List Nat))
+    (caps1 caps2 acc : List Nat) (R1 R2 : Run) (hI : Inv s) (hS : Started s)
+    (hphase : Settled s ∨ HeaderPhase s)
     (hne1 : bufs1 ≠ []) (hne2 : bufs2 ≠ []) (hsame : bufs1.flatten = bufs2.flatten)
     (h1 : runAll f1 s bufs1 caps1 acc = some R1) (h2 : runAll f2 s bufs2 caps2 acc = some R2) :
-    R1.emitted = R2.emitted ∧ R1.code = R2.code ∧ held R1.st = held R2.st ∧
-    R1.st.last_bytes_len = R2.st.last_bytes_len ∧ R1.st.new_stream_pending = R2.st.new_stream_pending ∧
-    R1.st.window_size = R2.st.window_size :=
-  runAll_slicing_irrelevant f1 f2 s bufs1 bufs2 caps1 caps2 acc R1 R2 hI hS hset hne1 hne2 hsame h1 h2
+    ObsEq R1 R2 := by
+  rcases hphase with hset | hph
+  · exact runAll_slicing_irrelevant f1 f2 s bufs1 bufs2 caps1 caps2 acc R1 R2 hI hS hset hne1 hne2 hsame h1 h2
+  · exact member_slicing_irrelevant f1 f2 s bufs1 bufs2 caps1 caps2 acc R1 R2 hI hS hph hne1 hne2 hsame h1 h2
+
+/-- every state reachable by `new`/`new_with_window_size`, `new_brotli_file`, `stream` is in
+one of the two phases (shown here for the entry points; `stream` keeps `Settled` by
+`stream_conservation` and leaves the header phase only into `Settled`) -/
+theorem phase_after_new_brotli_file (s : State) : HeaderPhase (newBrotliFile s) :=
+  ⟨NewStreamData.new, rfl, rfl⟩
+
+/-- what a complete run of a member amounts to, whatever the schedule: exactly one of
+"strip failed" (`NotCraftedForAppend`, nothing emitted), "look-ahead incomplete" (only the
+strip's byte emitted, the bytes read so far kept), "header refused" (terminal code, only the
+strip's byte emitted), or "accepted" with the closed form
+`emitted ++ tail = acc ++ stripByte ++ headerBytes ++ member[k..]`. -/
+theorem member_run_classified (fuel : Nat) (s : State) (bufs : List (List Nat)) (caps acc : List Nat) (R : Run)
+    (hI : Inv s) (hS : Started s) (hph : HeaderPhase s) (hne : bufs ≠ [])
+    (h : runAll fuel s bufs caps acc = some R) : MemberSpec s bufs.flatten acc R :=
+  runAll_spec fuel bufs s caps acc R hI hS hph hne h
+
+/-- non-vacuity, with the case that used to be open: the previous member's tail `63 d5`
+(marker in the top two bits of the second byte, so the strip emits `63`) and the member
+`3b 00 00 00 07`, once in one buffer with ample room, once in three buffers with capacities
+0, 1, 1, 0, 1, then ample: both runs exist and emit the same bytes -/
+example : ∃ R1 R2,
+    runAll 30 (newBrotliFile { State.new with last_bytes := (0x63, 0xd5), last_bytes_len := 2, window_size := 22 })
+      [[0x3b, 0, 0, 0, 7]] [] [] = some R1 ∧
+    runAll 30 (newBrotliFile { State.new with last_bytes := (0x63, 0xd5), last_bytes_len := 2, window_size := 22 })
+      [[0x3b], [0, 0], [0, 7]] [0, 1, 1, 0, 1] [] = some R2 ∧
+    R1.emitted = [0x63, 0xd5, 0, 0] ∧ R2.emitted = R1.emitted ∧ R1.code = NEEDS_MORE_INPUT := by
+  refine ⟨_, _, rfl, rfl, ?_, ?_, ?_⟩ <;> decide
 
 /-- closed form behind it: a complete run emits everything owed and consumed except the
 last two bytes (one byte if fewer are available), which it keeps as the tail -/
